@@ -19,6 +19,7 @@ import (
 	"encoding/hex"
 	"encoding/json"
 	"fmt"
+	"io"
 	"net"
 	"strings"
 	"time"
@@ -102,6 +103,18 @@ func buildConfig(s Spec, seed string) *tls.Config {
 	}
 	return &tls.Config{Rand: tlsx.NewDetRand(seed), Time: tlsx.Now, ServerName: s.ServerName, ForceSuites: s.Force,
 		ClientFingerprintConfiguration: fp}
+}
+
+// halfReader delivers at most half of what is asked for (at least one byte), never an error of its own.
+type halfReader struct{ r io.Reader }
+
+func (h halfReader) Read(p []byte) (int, error) {
+	// (never turn a longer read into a 1-byte one: the deterministic Rand of the harness answers 1-byte reads, which
+	// are crypto/internal/randutil.MaybeReadByte probes, without consuming its stream)
+	if len(p) > 3 {
+		p = p[:(len(p)+1)/2]
+	}
+	return h.r.Read(p)
 }
 
 // ---------------------------------------------------------------- capture
@@ -347,6 +360,25 @@ func (r *runner) checkWire(s Spec) []byte {
 		return nil
 	}
 	r.det++
+
+	// Config.Rand is an io.Reader: one that delivers short reads without error (a pipe, a chunked or hardware source)
+	// must give the same hello as one that fills every buffer - the stream of random bytes is the same
+	{
+		cfgH := buildConfig(s, "a")
+		cfgH.Rand = halfReader{cfgH.Rand}
+		hr := capture(cfgH)
+		r.runs++
+		mh, _, eh := extractHello(hr.stream)
+		if eh != nil {
+			viol("short-read Rand: no complete ClientHello when Config.Rand delivers short reads", errClass(hr.err), hr.stream)
+			return nil
+		}
+		if !bytes.Equal(mask(msg), mask(mh)) {
+			viol("short-read Rand: the hello differs from the one sent with the same random stream delivered in full reads (randomness not read with io.ReadFull)", hexShort(mh), msg)
+			return nil
+		}
+		r.h["Rand delivering short reads: same hello"]++
+	}
 
 	// the same configuration object used for a second connection: still exactly as configured, and whatever is
 	// fresh per hello is drawn again (the Rand stream continues, so the bytes differ)
